@@ -8,6 +8,10 @@ pub fn from_str_native(mut src: &str) -> Result<(Self, usize), ParseError>
         // `4 * digits` inside usize
         ascii_text(src@),
         src@.len() <= 0x0fff_ffff_ffff_ffff,
+        // resource limit: exponent overflow is a documented panic (C16), not modelled: the exponent of the leading digit
+        // of the written value fits isize (lib/fio_parse_stubs.rs `parse_room`; needed by `Repr::new`, whose normalisation
+        // adds the number of trailing zero digits to the exponent)
+        parse_room(src@, B as int),
     ensures
         // C08: an accepted text reads, under the documented grammar, as sign/prefix/digits/point/digits/scale with
         // precision = number of written digits (4 bits per digit of a 0x literal, '_' not counted) and
@@ -290,6 +294,7 @@ pub fn from_str_native(mut src: &str) -> Result<(Self, usize), ParseError>
             if sign == Sign::Negative {
                 lemma_sv_neg(B as int, sv, exponent as int, dval(gi + gf, radix), ft_exp(d));
             }
+            lemma_parse_room(s0, B as int, d, (if sign == Sign::Negative { -sv } else { sv }), exponent as int);
         } @*/
         let repr = Repr::new(sign * significand, exponent);
         /*@ proof {
